@@ -27,6 +27,11 @@ class Scheduler:
         self.bthread = None
         self.locs = None          # when recording: list of (file, line) per count
         self.installed = False
+        self.b_pause_at = None
+        self.b_fired = False
+        self.b_loc = None
+        self.b_paused = threading.Event()
+        self.b_resume = threading.Event()
 
     def install(self):
         if self.installed:
@@ -52,6 +57,12 @@ class Scheduler:
         tid = threading.get_ident()
         if tid == self.b_tid:
             self.bcount += 1
+            if self.b_pause_at is not None and self.bcount == self.b_pause_at and not self.b_fired:
+                # second pre-emption (schedule2): B is suspended here until A has finished or is seen to wait for B
+                self.b_fired = True
+                self.b_loc = (code.co_filename[len(self.prefix):], line)
+                self.b_paused.set()
+                self.b_resume.wait(60)
             return
         if tid != self.a_tid:
             return
@@ -67,6 +78,8 @@ class Scheduler:
             last = -1
             while t.is_alive():
                 t.join(0.008)
+                if self.b_paused.is_set():
+                    break                     # B reached its own pre-emption point: A goes on while B stays suspended
                 if t.is_alive():
                     if self.bcount == last:
                         self.blocked = True   # B made no progress over a poll: blocked on something A holds
@@ -85,9 +98,11 @@ class Scheduler:
         self.a_tid = None
         return r, self.count, locs
 
-    def schedule(self, fa, fb, k, timeout=60):
-        """Run one schedule.  Returns dict(fired, blocked, loc, A, B, hung)."""
+    def schedule(self, fa, fb, k, timeout=60, kb=None):
+        """Run one schedule.  Returns dict(fired, blocked, loc, A, B, hung).  With kb, B is itself suspended when about to
+        execute its kb-th library line, A then runs to completion (or until it waits for B), then B finishes."""
         res = {}
+        self.a_waited_for_b = False
 
         def run_b():
             self.b_tid = threading.get_ident()
@@ -107,13 +122,30 @@ class Scheduler:
         self.k, self.count, self.bcount = k, 0, 0
         self.fired = self.blocked = False
         self.b_tid = self.bthread = self.loc = None
+        self.b_pause_at, self.b_fired, self.b_loc = kb, False, None
+        self.b_paused, self.b_resume = threading.Event(), threading.Event()
         ta = threading.Thread(target=run_a)
         ta.start()
-        ta.join(timeout)
+        if kb is None:
+            ta.join(timeout)
+        else:
+            # two pre-emptions: once B is suspended A runs on; if A stops making progress (it waits for something the
+            # suspended B holds) B is released, so that the schedule degenerates to "B first" instead of deadlocking
+            t0, last, still = time.time(), -1, 0
+            while ta.is_alive() and time.time() - t0 < timeout:
+                ta.join(0.008)
+                if ta.is_alive() and self.b_paused.is_set() and not self.b_resume.is_set():
+                    still = still + 1 if self.count == last else 0
+                    last = self.count
+                    if still >= 2:
+                        self.a_waited_for_b = True
+                        self.b_resume.set()
+            self.b_resume.set()
         hung = ta.is_alive()
         if self.bthread is not None:
             self.bthread.join(timeout)
             hung = hung or self.bthread.is_alive()
         self.a_tid = self.b_tid = None
+        self.b_resume.set()
         return {"fired": self.fired, "blocked": self.blocked, "loc": self.loc, "A": res.get("A"), "B": res.get("B"),
-                "hung": hung}
+                "hung": hung, "b_fired": self.b_fired, "b_loc": self.b_loc, "a_waited_for_b": self.a_waited_for_b}
